@@ -53,6 +53,9 @@ def handle (op : String) (args impl : List String) : Option Out :=
           | none => .malformed "ab_posin count")
       | _, _ => .malformed "ab_posin args")
   | "ab_fdim", _ => some (.ok s!"ab_fdim.{impl.headD "?"}")
+  -- value semantics of Variant: after the swap x holds v2 and y holds v1, the copy that was assigned v2 holds v2, and both
+  -- reads as another type are refused
+  | "ab_var", [v1, v2] => some (cmp "ab_var" ["ok", v2, v1, v2, "2"] impl)
   | _, _ => none
 
 end Nix.Drive.Abuse
